@@ -4,6 +4,7 @@
 use crate::model::*;
 use crate::prng::Rng;
 use crate::reflex::{self, K};
+use crate::vocab;
 
 // ---------------------------------------------------------------------------
 // Names
@@ -29,9 +30,18 @@ pub fn ident(rng: &mut Rng) -> String {
     if rng.chance(1, 4) {
         return rng.pick(NEAR_KEYWORDS).to_string();
     }
+    if rng.chance(1, 12) {
+        // a word the library's own source mentions (harvested dictionary)
+        if let Some(w) = vocab::ident(rng) {
+            return w;
+        }
+    }
     if rng.chance(1, 250) {
-        // length boundaries
-        let n = *rng.pick(&[31usize, 32, 33, 63, 64, 65, 127, 128, 129, 255, 256, 257, 1000]);
+        // length boundaries (fixed ones and the numbers the source mentions)
+        let n = match vocab::threshold(rng, 5000) {
+            Some(t) if rng.chance(1, 2) => t.max(2),
+            _ => *rng.pick(&[31usize, 32, 33, 63, 64, 65, 127, 128, 129, 255, 256, 257, 1000]),
+        };
         return format!("L{}", "x".repeat(n - 1));
     }
     let first = b"abcdefghijklmnopqrstuvwxyzABCDEFGHIJKLMNOPQRSTUVWXYZ_";
@@ -80,6 +90,11 @@ pub const PRIMS: &[&str] = &["byte", "short", "int", "long", "float", "double", 
 // Literals
 
 pub fn integer_lit(rng: &mut Rng) -> String {
+    if rng.chance(1, 10) {
+        if let Some(n) = vocab::number_u32(rng) {
+            return if rng.chance(1, 5) { format!("0{n}") } else { n.to_string() };
+        }
+    }
     if rng.chance(1, 8) {
         // boundary values (all fit u32)
         return rng.pick_str(&["255", "256", "65535", "65536", "16777214", "16777215", "16777216", "2147483647", "2147483648", "4294967294", "4294967295", "0000000001", "1"]).to_string();
@@ -120,7 +135,29 @@ pub fn string_lit(rng: &mut Rng) -> String {
     let n = rng.below(6);
     let mut s = String::from("\"");
     for _ in 0..n {
+        if rng.chance(1, 12) {
+            if let Some(c) = vocab::special_char(rng) {
+                if c != '"' && c != '\n' && c != '\r' {
+                    s.push(c);
+                    continue;
+                }
+            }
+            if let Some(w) = vocab::word(rng) {
+                if !w.contains('"') {
+                    s.push_str(&w);
+                    continue;
+                }
+            }
+        }
         s.push_str(rng.pick_str(STRING_CHARS));
+    }
+    if rng.chance(1, 200) {
+        // a literal whose length sits at a number the source mentions
+        if let Some(t) = vocab::threshold(rng, 5000) {
+            while s.len() < t {
+                s.push_str(rng.pick_str(&["a", "é", "漢", " "]));
+            }
+        }
     }
     s.push('"');
     s
@@ -207,7 +244,7 @@ pub fn annotation(rng: &mut Rng) -> Ann {
         return Ann { name: name.to_string(), params, trailing_comma };
     }
     const NAMES: &[&str] = &["nullable", "utf8InCpp", "Backing", "VintfStability", "JavaOnlyStableParcelable", "A", "X_1", "_x", "in", "int", "for", "List"];
-    let name = if rng.chance(3, 4) { rng.pick(NAMES).to_string() } else { ident(rng) };
+    let name = if rng.chance(1, 8) { vocab::ident(rng).unwrap_or_else(|| ident(rng)) } else if rng.chance(3, 4) { rng.pick(NAMES).to_string() } else { ident(rng) };
     let params = if rng.chance(1, 2) {
         let n = if rng.chance(1, 300) { rng.range(31, 40) } else { rng.below(4) };
         let mut v = Vec::new();
@@ -268,6 +305,11 @@ pub fn leaf_ty(rng: &mut Rng, customs: &[Vec<String>]) -> Ty {
                 ]);
                 return Ty::custom(n);
             }
+            if rng.chance(1, 12) {
+                if let Some(d) = if rng.chance(1, 2) { vocab::dotted(rng) } else { vocab::ident(rng) } {
+                    return Ty::custom(&d);
+                }
+            }
             if !customs.is_empty() && rng.chance(2, 3) {
                 Ty::Custom(rng.pick(customs).clone())
             } else {
@@ -295,7 +337,16 @@ pub fn deep_chain_ty(rng: &mut Rng, depth: usize, customs: &[Vec<String>]) -> Ty
 
 pub fn ty_cfg(rng: &mut Rng, cfg: &GenCfg, max_depth: usize) -> Ty {
     if cfg.deep_types && rng.chance(1, 60) {
-        let d = if rng.chance(1, 3) { *rng.pick(&[15usize, 16, 17, 31, 32, 33, 63, 64, 65, 127, 128, 129, 254, 255, 256, 257, 300]) } else { rng.range(30, 64) };
+        let d = match vocab::threshold(rng, 300) {
+            Some(t) if rng.chance(1, 4) => t,
+            _ => {
+                if rng.chance(1, 3) {
+                    *rng.pick(&[15usize, 16, 17, 31, 32, 33, 63, 64, 65, 127, 128, 129, 254, 255, 256, 257, 300])
+                } else {
+                    rng.range(30, 64)
+                }
+            }
+        };
         return deep_chain_ty(rng, d, &cfg.customs);
     }
     ty(rng, max_depth, &cfg.customs)
@@ -420,10 +471,15 @@ pub fn enum_elem(rng: &mut Rng, cfg: &GenCfg) -> Member {
 pub fn item(rng: &mut Rng, cfg: &GenCfg) -> Item {
     let kind = cfg.kind.unwrap_or_else(|| *rng.pick(&[ItemKind::Interface, ItemKind::Interface, ItemKind::Parcelable, ItemKind::Parcelable, ItemKind::Enum]));
     let n = if cfg.big && rng.chance(1, 25) {
-        if rng.chance(1, 8) {
-            *rng.pick(&[127usize, 128, 129, 255, 256, 257])
-        } else {
-            rng.range(31, 80)
+        match vocab::threshold(rng, 300) {
+            Some(t) if rng.chance(1, 3) => t,
+            _ => {
+                if rng.chance(1, 8) {
+                    *rng.pick(&[127usize, 128, 129, 255, 256, 257])
+                } else {
+                    rng.range(31, 80)
+                }
+            }
         }
     } else {
         rng.below(cfg.max_members + 1)
@@ -594,10 +650,15 @@ pub fn doc(rng: &mut Rng, cfg: &GenCfg) -> Doc {
 
 fn doc_header(rng: &mut Rng, cfg: &GenCfg) -> Doc {
     let ni = if cfg.big && rng.chance(1, 30) {
-        if rng.chance(1, 8) {
-            *rng.pick(&[128usize, 256, 257])
-        } else {
-            rng.range(31, 70)
+        match vocab::threshold(rng, 300) {
+            Some(t) if rng.chance(1, 3) => t,
+            _ => {
+                if rng.chance(1, 8) {
+                    *rng.pick(&[128usize, 256, 257])
+                } else {
+                    rng.range(31, 70)
+                }
+            }
         }
     } else {
         rng.below(cfg.max_imports + 1)
@@ -607,7 +668,12 @@ fn doc_header(rng: &mut Rng, cfg: &GenCfg) -> Doc {
         package: qualified(rng, 1, 4),
         imports: (0..ni)
             .map(|_| {
-                if rng.chance(1, 6) {
+                if rng.chance(1, 10) {
+                    match vocab::dotted(rng) {
+                        Some(d) => d.split('.').map(|x| x.to_string()).collect(),
+                        None => qualified(rng, 2, 4),
+                    }
+                } else if rng.chance(1, 6) {
                     rng.pick_str(REAL_WORLD_IMPORTS).split('.').map(|x| x.to_string()).collect()
                 } else {
                     qualified(rng, 2, 4)
@@ -1147,6 +1213,12 @@ pub fn comment_text(rng: &mut Rng, block: bool) -> String {
     let n = rng.below(5);
     let mut s = String::new();
     for _ in 0..n {
+        if rng.chance(1, 12) {
+            if let Some(w) = vocab::word(rng) {
+                s.push_str(&w);
+                continue;
+            }
+        }
         s.push_str(rng.pick_str(COMMENT_WORDS));
     }
     if block {
